@@ -131,6 +131,10 @@ type Engine struct {
 
 	wgConn sync.WaitGroup
 
+	// counts the listener (acceptor) goroutines: Stop lets them finish before
+	// it takes the connections to close, so that none is added behind its back.
+	wgListeners sync.WaitGroup
+
 	// store std connections, for Windows only.
 	connsStd map[*Conn]struct{}
 
@@ -201,6 +205,8 @@ func (g *Engine) Stop() {
 	for _, l := range g.listeners {
 		l.stop()
 	}
+	// an acceptor may be adding the connection it has just accepted.
+	g.wgListeners.Wait()
 
 	g.mux.Lock()
 	conns := g.connsStd
